@@ -235,45 +235,80 @@ Proof.
 Qed.
 
 (** ================= wake-ups, timeouts, hang-ups ================= *)
+Lemma fifo_reg_notify n b db k : fifo_reg n (b_reg b) -> fifo_reg n (b_reg (notify_key_ready b db k)).
+Proof.
+  intros H1. unfold notify_key_ready. destruct (reg_get (b_reg b) (db, k)) as [|w q] eqn:Eg; [exact H1|].
+  cbn [with_wake with_reg b_reg]. destruct (H1 (db, k)) as [Hs Hb]. rewrite Eg in Hs, Hb.
+  apply StronglySorted_inv in Hs. apply Forall_cons_iff in Hb.
+  apply fifo_reg_unregister. apply fifo_reg_put; [exact H1|exact (proj1 Hs)|exact (proj2 Hb)].
+Qed.
+(** where a registration or a wake-up comes from: a registration, or one of the wake-ups being handled *)
+Definition src (b : blocking) (l : list wakeup) (c t : Z) : Prop :=
+  (exists rk w, In w (reg_get (b_reg b) rk) /\ w_conn w = c /\ w_at w = t) \/
+  (exists u, In u l /\ u_conn u = c /\ u_at u = t).
 Lemma wake_client_fifo now s b u :
   b_seq (snd (wake_client now s b u)) = b_seq b /\
   (fifo_reg (b_seq b) (b_reg b) -> u_at u < b_seq b -> fifo_reg (b_seq b) (b_reg (snd (wake_client now s b u)))) /\
   (forall rk w, In w (reg_get (b_reg (snd (wake_client now s b u))) rk) ->
-                In w (reg_get (b_reg b) rk) \/ (w_conn w = u_conn u /\ w_at w = u_at u)).
+                In w (reg_get (b_reg b) rk) \/ (w_conn w = u_conn u /\ w_at w = u_at u)) /\
+  exists ex, b_wake (snd (wake_client now s b u)) = b_wake b ++ ex /\
+             forall x, In x ex -> exists rk w, In w (reg_get (b_reg b) rk) /\ w_conn w = u_conn x /\ w_at w = u_at x.
 Proof.
   unfold wake_client. destruct (on_key _ (u_key u) (e_pop (u_left u))) as [r d'].
-  assert (Id : forall bx, b_seq bx = b_seq b -> b_reg bx = b_reg b ->
+  assert (Id : forall bx, b_seq bx = b_seq b -> b_reg bx = b_reg b -> b_wake bx = b_wake b ->
             b_seq bx = b_seq b /\ (fifo_reg (b_seq b) (b_reg b) -> u_at u < b_seq b -> fifo_reg (b_seq b) (b_reg bx)) /\
-            (forall rk w, In w (reg_get (b_reg bx) rk) -> In w (reg_get (b_reg b) rk) \/ (w_conn w = u_conn u /\ w_at w = u_at u))).
-  { intros bx E1 E2. split; [exact E1|]. rewrite E2. split; [auto|]. intros rk w H. left. exact H. }
+            (forall rk w, In w (reg_get (b_reg bx) rk) -> In w (reg_get (b_reg b) rk) \/ (w_conn w = u_conn u /\ w_at w = u_at u)) /\
+            exists ex, b_wake bx = b_wake b ++ ex /\
+                       forall x, In x ex -> exists rk w, In w (reg_get (b_reg b) rk) /\ w_conn w = u_conn x /\ w_at w = u_at x).
+  { intros bx E1 E2 E3. split; [exact E1|]. rewrite E2. split; [auto|]. split; [intros rk w H; left; exact H|].
+    exists []. rewrite app_nil_r. split; [exact E3|intros x []]. }
   destruct (zlookup (u_conn u) (b_blk b)) as [st|];
     [destruct (recheck (bl_left st) d' (bl_keys st)) as [[[k v]|] d'']|]; destruct r; cbn [snd];
     try (apply Id; reflexivity).
-  all: split; [reflexivity|]; cbn [with_reg b_reg]; split;
-    [intros H1 H2; apply fifo_reg_reregister; assumption|
-     intros rk w H; apply in_reg_get_reregister in H; destruct H as [->|H]; [right; split; reflexivity|left; exact H]].
+  (* registered again, under its old stamp *)
+  all: try (split; [reflexivity|]; cbn [with_reg b_reg b_wake]; split;
+    [intros H1 H2; apply fifo_reg_reregister; assumption|]; split;
+    [intros rk w H; apply in_reg_get_reregister in H; destruct H as [->|H]; [right; split; reflexivity|left; exact H]
+    |exists []; rewrite app_nil_r; split; [reflexivity|intros x []]]).
+  (* the element goes back: the next waiter is notified *)
+  split; [apply notify_key_ready_seq|]. split; [intros H1 _; apply fifo_reg_notify; exact H1|].
+  split; [intros rk w H; left; eapply notify_key_ready_in; exact H|].
+  exists (renotified b (u_db u) (u_key u)). split; [apply notify_key_ready_wake|].
+  intros x Hx. unfold renotified in Hx. destruct (reg_get (b_reg b) (u_db u, u_key u)) as [|w q] eqn:Eg; [destruct Hx|].
+  destruct Hx as [<-|[]]. exists (u_db u, u_key u), w. rewrite Eg. split; [left; reflexivity|split; reflexivity].
 Qed.
 Lemma wake_fold_fifo now : forall l s b,
   fifo_reg (b_seq b) (b_reg b) -> Forall (fun u => u_at u < b_seq b) l ->
   b_seq (snd (fold_left (wake_step now) l (s, b))) = b_seq b /\
-  b_wake (snd (fold_left (wake_step now) l (s, b))) = b_wake b /\
   fifo_reg (b_seq b) (b_reg (snd (fold_left (wake_step now) l (s, b)))) /\
-  forall rk w, In w (reg_get (b_reg (snd (fold_left (wake_step now) l (s, b)))) rk) ->
-    In w (reg_get (b_reg b) rk) \/ exists u, In u l /\ w_conn w = u_conn u /\ w_at w = u_at u.
+  (forall rk w, In w (reg_get (b_reg (snd (fold_left (wake_step now) l (s, b)))) rk) -> src b l (w_conn w) (w_at w)) /\
+  exists ex, b_wake (snd (fold_left (wake_step now) l (s, b))) = b_wake b ++ ex /\
+             Forall (fun u => u_at u < b_seq b) ex /\ forall x, In x ex -> src b l (u_conn x) (u_at x).
 Proof.
   induction l as [|u l IH]; intros s b H1 H2; cbn [fold_left].
-  - cbn [snd]. split; [reflexivity|]. split; [reflexivity|]. split; [exact H1|]. intros rk w H. left. exact H.
+  - cbn [snd]. split; [reflexivity|]. split; [exact H1|]. split; [intros rk w H; left; exists rk, w; auto|].
+    exists []. rewrite app_nil_r. split; [reflexivity|]. split; [constructor|intros x []].
   - apply Forall_cons_iff in H2. destruct H2 as [Hu H2]. rewrite wake_step_eq.
+    assert (Up : forall c t, src b l c t -> src b (u :: l) c t).
+    { intros c t [G|(x & G1 & G2)]; [left; exact G|right; exists x; split; [right; exact G1|exact G2]]. }
     destruct (b_crashed b).
-    + destruct (IH s b H1 H2) as (I1 & I2 & I3 & I4). split; [exact I1|]. split; [exact I2|]. split; [exact I3|].
-      intros rk w H. destruct (I4 rk w H) as [G|(u1 & G1 & G2)]; [left; exact G|right; exists u1; split; [right; exact G1|exact G2]].
-    + destruct (wake_client_fifo now s b u) as (W1 & W2 & W3). pose proof (wake_client_wake now s b u) as W4.
+    + destruct (IH s b H1 H2) as (I1 & I3 & I4 & ex & I5 & I6 & I7). split; [exact I1|]. split; [exact I3|].
+      split; [intros rk w H; apply Up; apply I4 with rk; exact H|].
+      exists ex. split; [exact I5|]. split; [exact I6|intros x Hx; apply Up; apply I7; exact Hx].
+    + destruct (wake_client_fifo now s b u) as (W1 & W2 & W3 & ex1 & W4 & W5).
       destruct (wake_client now s b u) as [s1 b1]. cbn [snd] in *.
       assert (H1' : fifo_reg (b_seq b1) (b_reg b1)) by (rewrite W1; apply W2; assumption).
       assert (H2' : Forall (fun u0 => u_at u0 < b_seq b1) l) by (rewrite W1; exact H2).
-      destruct (IH s1 b1 H1' H2') as (I1 & I2 & I3 & I4). rewrite W1 in *. split; [exact I1|]. split; [congruence|]. split; [exact I3|].
-      intros rk w H. destruct (I4 rk w H) as [G|(u1 & G1 & G2)]; [|right; exists u1; split; [right; exact G1|exact G2]].
-      destruct (W3 rk w G) as [K|K]; [left; exact K|right; exists u; split; [left; reflexivity|exact K]].
+      assert (Up1 : forall c t, src b1 l c t -> src b (u :: l) c t).
+      { intros c t [(rk & w & G1 & G2 & G3)|(x & G1 & G2)]; [|right; exists x; split; [right; exact G1|exact G2]].
+        destruct (W3 rk w G1) as [K|[K1 K2]]; [left; exists rk, w; auto|right; exists u; split; [left; reflexivity|split; congruence]]. }
+      destruct (IH s1 b1 H1' H2') as (I1 & I3 & I4 & ex2 & I5 & I6 & I7). rewrite W1 in *.
+      split; [exact I1|]. split; [exact I3|]. split; [intros rk w H; apply Up1; apply I4 with rk; exact H|].
+      exists (ex1 ++ ex2). split; [rewrite I5, W4, app_assoc; reflexivity|]. split.
+      * apply Forall_app. split; [|exact I6]. apply Forall_forall. intros x Hx. destruct (W5 x Hx) as (rk & w & K1 & _ & K3).
+        rewrite <- K3. destruct (H1 rk) as [_ Hb]. unfold qbelow in Hb. rewrite Forall_forall in Hb. apply Hb. exact K1.
+      * intros x Hx. apply in_app_or in Hx. destruct Hx as [Hx|Hx]; [|apply Up1; apply I7; exact Hx].
+        destruct (W5 x Hx) as (rk & w & K1 & K2 & K3). left. exists rk, w. auto.
 Qed.
 Lemma timeout_fold_seq : forall ex b, b_seq (fold_left timeout_conn ex b) = b_seq b.
 Proof.
@@ -315,14 +350,18 @@ Proof.
     destruct HF as [H1 H2]. unfold process_wakeups.
     assert (H2a : Forall (fun u => u_at u < b_seq (with_wake b (skipn 32 (b_wake b)))) (firstn 32 (b_wake b))).
     { eapply forall_sub; [|exact H2]. intros x. apply in_firstn. }
-    destruct (wake_fold_fifo now (firstn 32 (b_wake b)) s (with_wake b (skipn 32 (b_wake b))) H1 H2a) as (I1 & I2 & I3 & I4).
-    cbn [with_wake b_seq b_wake b_reg] in I1, I2, I3, I4.
+    destruct (wake_fold_fifo now (firstn 32 (b_wake b)) s (with_wake b (skipn 32 (b_wake b))) H1 H2a) as (I1 & I3 & I4 & ex & I5 & I6 & I7).
+    cbn [with_wake b_seq b_wake b_reg] in I1, I3, I5, I6.
+    assert (Src : forall c t, src (with_wake b (skipn 32 (b_wake b))) (firstn 32 (b_wake b)) c t -> stamp_in b c t).
+    { intros c t [(rk & w & G1 & G2)|(u & G1 & G2)]; [left; exists rk, w; auto|right; exists u; split; [eapply in_firstn; exact G1|exact G2]]. }
     split; [|split; [lia|]].
-    + unfold fifo_ok. rewrite I1, I2. split; [exact I3|]. eapply forall_sub; [|exact H2]. intros x. apply in_skipn.
+    + unfold fifo_ok. rewrite I1, I5. split; [exact I3|]. apply Forall_app. split; [|exact I6].
+      eapply forall_sub; [|exact H2]. intros x. apply in_skipn.
     + intros c t [(rk & w & G1 & G2 & G3)|(u & G1 & G2 & G3)]; left.
-      * destruct (I4 rk w G1) as [K|(u & K1 & K2 & K3)]; [left; exists rk, w; auto|].
-        right. exists u. split; [eapply in_firstn; exact K1|]. split; congruence.
-      * right. exists u. rewrite I2 in G1. split; [eapply in_skipn; exact G1|auto].
+      * subst c t. apply Src. apply I4 with rk. exact G1.
+      * rewrite I5 in G1. apply in_app_or in G1. destruct G1 as [G1|G1].
+        -- right. exists u. split; [eapply in_skipn; exact G1|auto].
+        -- subst c t. apply Src. apply I7. exact G1.
   - (* timeouts *)
     destruct HF as [H1 H2]. unfold process_timeouts. destruct (expire_reg now (b_reg b)) as [ex r'] eqn:Ee.
     destruct (timeout_fold ex (with_reg b r')) as (T1 & T2 & _). pose proof (timeout_fold_seq ex (with_reg b r')) as T3.
